@@ -16,6 +16,7 @@ type soilTempCase struct {
 	N     int       `json:"N"`
 	Lai   float64   `json:"lai"`
 	Rad   float64   `json:"rad"` // g.RAD[TAG] (PAR, MJ m-2)
+	Sund  float64   `json:"sunshine_hours,omitempty"` // g.SUND[TAG]: weather without a radiation column (RAD = 0) but with sunshine hours
 	Eta   float64   `json:"eta"`
 	Temp  float64   `json:"temp"`
 	Tmin  float64   `json:"tmin"`
@@ -140,6 +141,11 @@ func genSoilTempCase(r *vh.Rng, mode int) soilTempCase {
 		c.Lai, c.Eta = 0, 0
 		c.Rad = []float64{4.165, 4.17, 4.16}[r.Intn(3)]
 	}
+	if r.Chance(0.1) {
+		// no radiation record, sunshine hours present (Soiltemp reads RAD only: the radiation term is 0)
+		c.Rad = 0
+		c.Sund = vh.RoundTo(r.Uni(1, 15), 1)
+	}
 	// ---- profile
 	shape := r.Intn(5)
 	c.Shape = []string{"rough", "linear", "flat", "spike", "sawtooth"}[shape]
@@ -260,6 +266,8 @@ func newSoilTempState(c *soilTempCase) *hermes.GlobalVarsMain {
 	g.LAI = c.Lai
 	g.ETA = c.Eta
 	g.RAD[idx] = c.Rad
+	g.SUND[idx] = c.Sund
+	g.LAT = 52.5
 	g.TEMP[idx] = c.Temp
 	g.TMIN[idx] = c.Tmin
 	g.TMAX[idx] = c.Tmax
